@@ -1,6 +1,8 @@
 import CoercionModel.Model.Secure
 import CoercionModel.Model.SkeletonsMore
 import CoercionModel.Generated.F12
+import CoercionModel.Model.SkeletonsGlue
+import CoercionModel.Generated.F15
 set_option linter.unusedSimpArgs false
 /-
   C17 — Secure-tagged values never leak through clones or HTML reports.
@@ -166,5 +168,9 @@ set_option maxRecDepth 100000 in
 /-- the code this property's model mirrors still has the shape the model was written against (control-flow
     skeletons regenerated from /repo on every run, Model/SkeletonsMore) -/
 theorem facts_model_skeleton : Generated.F12.secure = SkeletonsMore.secure := by rfl
+
+/-- the glue code this property's campaigns rest on (group `secureGlue` of Model/SkeletonsGlue: code no model mirrors) still has
+    the shape it was read with (regenerated from /repo on every run) -/
+theorem facts_glue_skeleton : Generated.F15.secureGlue = SkeletonsGlue.secureGlue := by rfl
 
 end Coercion.C17
